@@ -397,14 +397,13 @@ theorem subs_ret (st : St) (tr : List (Ev α α)) (l : Loc α) (hn : 0 < st.next
   | x1 => cases hout : st.outer <;> simpa [SubsOk, respR, nextR, subscriptions, hout] using h
   | _ => simpa [SubsOk, respR, nextR, subscriptions] using h
 
-theorem respC_notInp (st : St) (i : In α) : HeadOk (respC st i :: .inp i :: ([] : List (Ev α α)) ) ∧ ∀ tr, HeadOk (respC st i :: tr) := by
-  refine ⟨?_, fun tr => ?_⟩ <;>
-  · cases i with
-    | subscribe k => simp [HeadOk, respC]
-    | srcGreet j => cases j <;> simp [HeadOk, respC]
-    | sinkUp k u => cases u <;> cases hin : st.inner <;> cases hout : st.outer <;> simp [HeadOk, respC, hin, hout]
-    | srcDown j d =>
-      cases j <;> cases d <;> cases hin : st.inner <;> cases hout : st.outer <;> simp [HeadOk, respC, hin, hout]
+theorem respC_notInp (st : St) (i : In α) (tr : List (Ev α α)) : HeadOk (respC st i :: tr) := by
+  cases i with
+  | subscribe k => simp [HeadOk, respC]
+  | srcGreet j => cases j <;> simp [HeadOk, respC]
+  | sinkUp k u => cases u <;> cases hin : st.inner <;> cases hout : st.outer <;> simp [HeadOk, respC, hin, hout]
+  | srcDown j d =>
+    cases j <;> cases d <;> cases hin : st.inner <;> cases hout : st.outer <;> simp [HeadOk, respC, hin, hout]
 
 theorem respR_notInp (st : St) (l : Loc α) (tr : List (Ev α α)) : HeadOk (respR st l :: tr) := by
   cases l <;> (try cases hout : st.outer) <;> simp [HeadOk, respR, *]
@@ -581,4 +580,86 @@ theorem flattenOk_of {α : Type} [DecidableEq α] {tr : List (Ev α α)} (h : Ad
   simp only [Bool.and_eq_true]
   exact ⟨⟨⟨⟨⟨h1, h2⟩, h3⟩, hd'⟩, h5⟩, h6⟩
 
+
+/-! ## the invariant -/
+
+def FInv (s : Cfg α) : Prop := SReach (machine α) s ∧ Flatten.Inv s ∧ T s.tr s.st.nextId
+
+theorem finv_init : FInv (Sys.init (machine α) : Cfg α) := by
+  refine ⟨.init, inv_init, ⟨trivial, ⟨rfl, rfl, rfl, rfl, rfl⟩, rfl, ?_, ?_⟩⟩
+  · simp [SubsOk, Sys.init, machine, subscriptions]
+  · intro k hk hlt; simp [Sys.init, machine] at hlt
+
+theorem nextC_cases (st : St) (i : In α) :
+    nextC st i = st.nextId ∨ (nextC st i = st.nextId + 1 ∧ st.inner = none ∧ ∃ a, i = .srcDown 0 (.data a)) := by
+  cases i with
+  | srcDown j d =>
+    cases j with
+    | zero =>
+      cases d with
+      | data a =>
+        cases hin : st.inner with
+        | none => exact Or.inr ⟨by simp [nextC, hin], rfl, a, rfl⟩
+        | some k => exact Or.inl (by simp [nextC, hin])
+      | _ => exact Or.inl rfl
+    | succ j => cases d <;> exact Or.inl rfl
+  | sinkUp k u => cases u <;> exact Or.inl rfl
+  | _ => exact Or.inl rfl
+
+theorem finv_step (s s' : Cfg α) (m : Move α) (h : FInv s) (hs : EnvStep (machine α) m s s') :
+    ∃ n, FInv (advance (machine α) n s') := by
+  obtain ⟨hR, hI, hT⟩ := h
+  have hb := Flatten.inv_step s s' m hI hs
+  have hR' : SReach (machine α) s' := .step hR (.env hs trivial)
+  have hG := (TG.of_reach hR).ph
+  have hv := hI.2.1
+  have hpos := hI.2.2.1
+  cases hs with
+  | @call st stk g tr c i hc hl =>
+    simp only at hT hG hv hpos
+    obtain ⟨n, hI', hn, htr⟩ := glue (P := fun s2 => s2.st.nextId = nextC st i ∧ s2.tr = respC st i :: .inp i :: tr) hb
+      (run_call st stk _ (.inp i :: tr) i (by simp [hc]))
+    refine ⟨n, reach_advance n hR', hI', ?_⟩
+    rw [hn, htr]
+    have hL : isLinkCall i = true → Linked st tr i := by
+      intro hi
+      obtain ⟨h2, h3, h4, hcur⟩ := live_of_legal hI hc hl hi
+      obtain ⟨hA, hO⟩ := link hG hv h2 h3 h4 hT.subs hT.old
+      exact ⟨hA, hO, hcur⟩
+    have hlen : ((subscriptions tr).filter (· ≠ 0)).length + 1 = st.nextId := by
+      rw [hT.subs, List.length_range']; omega
+    refine ⟨respC_notInp st i _, hT.adj.step hT.head (.inr ⟨i, rfl⟩) (chk_call st tr i hL hlen), data_call st tr i hT.data,
+      subs_call st tr i hpos hT.subs, hT.old.step _ _ ?_⟩
+    rcases nextC_cases st i with h | ⟨h, hin, a, rfl⟩
+    · exact Or.inl h
+    · refine Or.inr ⟨h, fun h1 => ?_⟩
+      obtain ⟨h2, h3, h4, hcur⟩ := live_of_legal hI hc hl rfl
+      exact deadTr_of_dead hG hv (h4 (st.nextId - 1) (by omega) (by omega) (by simp [hin]))
+  | @ret st stk g tr o l hl =>
+    simp only at hT hG hv hpos
+    obtain ⟨hcont, hctx⟩ := cont_of_inv hI
+    obtain ⟨n, hI', hn, htr⟩ := glue (P := fun s2 => s2.st.nextId = nextR st l ∧ s2.tr = respR st l :: .retE :: tr) hb
+      (run_ret st stk _ (.retE :: tr) l hcont hctx)
+    refine ⟨n, reach_advance n hR', hI', ?_⟩
+    rw [hn, htr]
+    refine ⟨respR_notInp st l _, hT.adj.step hT.head (.inl rfl) (chk_ret st tr l), data_ret st tr l hT.data,
+      subs_ret st tr l hpos hT.subs, hT.old.step _ _ ?_⟩
+    rcases hcont with rfl | rfl | ⟨e, rfl⟩ | ⟨e, rfl⟩ | rfl
+    · exact Or.inl rfl
+    · exact Or.inr ⟨rfl, fun h1 => deadTr_of_dead hG hv (dead_of_od1 hI (st.nextId - 1) (by omega) (by omega))⟩
+    · exact Or.inl rfl
+    · exact Or.inl rfl
+    · exact Or.inl rfl
+
+/-- C11: at every reachable configuration where the environment has control, the trace satisfies `flattenOk` -/
+theorem flatten_spec {α : Type} [DecidableEq α] :
+    ∀ s, SReach (Flatten.machine α) s → EnvTurn s → flattenOk s.tr = true := by
+  intro s hs ht
+  obtain ⟨n, hn⟩ := reach_runs_into_inv (machine α) anyEnv FInv finv_init (fun s h => (Flatten.inv_turn s h.2.1).1)
+    (fun s s' m hi he _ => finv_step s s' m hi he) s hs
+  rw [advance_of_envTurn ht] at hn
+  exact flattenOk_of hn.2.2.adj hn.2.2.data
+
 end Cb.FlattenFun
+
+#print axioms Cb.FlattenFun.flatten_spec
